@@ -388,10 +388,16 @@ func upperASCII(s string) string { return strings.ToUpper(s) }
 func probesFor(r *RNG, all []Op, fresh string) [][]byte {
 	seen := map[string]bool{}
 	var out [][]byte
+	perOpCap := false
+	perOpN := 0
 	add := func(s string) {
-		if !seen[s] && len(out) < 420 {
+		if perOpCap && perOpN >= 14 {
+			return
+		}
+		if !seen[s] && len(out) < 760 {
 			seen[s] = true
 			out = append(out, []byte(s))
+			perOpN++
 		}
 	}
 	custom := append([]string{}, customEls...)
@@ -434,7 +440,27 @@ func probesFor(r *RNG, all []Op, fresh string) [][]byte {
 		}
 		return []string{"x", "12", "left"}
 	}
+	for _, s := range []string{
+		`<a href="http://example.com/" rel="x" target="_self">l</a><a href="/rel">r</a><a href="http://example.com/" target="_blank">b</a>`,
+		`<area href="https://example.org/a?b=c"><link href="http://example.com/x.css" rel="stylesheet">`,
+		`<img src="http://example.com/a.png" crossorigin="use-credentials"><video src="//cdn.example/v.mp4"></video><audio src="rel.mp3" crossorigin></audio>`,
+		`<iframe sandbox="allow-forms allow-scripts allow-forms bogus" src="http://example.com/"></iframe><iframe src="https://example.org/"></iframe>`,
+		`<iframe src="http://example.com/" sandbox="allow-downloads allow-downloads-without-user-activation allow-forms allow-modals allow-orientation-lock allow-pointer-lock allow-popups allow-popups-to-escape-sandbox allow-presentation allow-same-origin allow-scripts allow-storage-access-by-user-activation allow-top-navigation allow-top-navigation-by-user-activation"></iframe>`,
+		`a<!-- c -->b<zzz>c</zzz>d<p data-x="1" data-UP="2">e</p>`,
+		`<script>var a=1<2;</script><style>p{color:red}</style><title>t</title>after`,
+		`<img src="data:image/png;base64,iVBORw0KGgo="><img src="data:text/html;base64,PHNjcmlwdD4=">`,
+		`<a href="mailto:a@b.c">m</a><a href="ftp://f.example/x">f</a><a href="app://open/x">a</a><a href="tel:+123">t</a><a href="javascript:alert(1)">j</a>`,
+		`<blockquote cite="http://example.com/">q</blockquote><q cite="/rel">q</q><del cite="http://bad.example/" datetime="2020-01-02">d</del>`,
+		`<p title="Hello world" id="i1" lang="en" dir="rtl" class="c1 c2" style="color: red; text-align: center">p</p>`,
+		`<my-el title="abc" align="left" width="7">m</my-el><x-el title="ABC" width="1234">x</x-el><my-widget lang="ok-1">w</my-widget>`,
+		`<div>text<noscript>n</noscript><object>o</object><iframe>i</iframe></div>`,
+		`<bdo>b</bdo><bdo dir="rtl">b</bdo><span>s</span><font color="red">f</font>`,
+	} {
+		add(s)
+	}
+	perOpCap = true
 	for _, o := range all {
+		perOpN = 0
 		switch o.K {
 		case "AllowElements":
 			for _, n := range o.Names {
@@ -486,23 +512,7 @@ func probesFor(r *RNG, all []Op, fresh string) [][]byte {
 			}
 		}
 	}
-	for _, s := range []string{
-		`<a href="http://example.com/" rel="x" target="_self">l</a><a href="/rel">r</a><a href="http://example.com/" target="_blank">b</a>`,
-		`<area href="https://example.org/a?b=c"><link href="http://example.com/x.css" rel="stylesheet">`,
-		`<img src="http://example.com/a.png" crossorigin="use-credentials"><video src="//cdn.example/v.mp4"></video><audio src="rel.mp3" crossorigin></audio>`,
-		`<iframe sandbox="allow-forms allow-scripts allow-forms bogus" src="http://example.com/"></iframe><iframe src="https://example.org/"></iframe>`,
-		`a<!-- c -->b<zzz>c</zzz>d<p data-x="1" data-UP="2">e</p>`,
-		`<script>var a=1<2;</script><style>p{color:red}</style><title>t</title>after`,
-		`<img src="data:image/png;base64,iVBORw0KGgo="><img src="data:text/html;base64,PHNjcmlwdD4=">`,
-		`<a href="mailto:a@b.c">m</a><a href="ftp://f.example/x">f</a><a href="app://open/x">a</a><a href="tel:+123">t</a><a href="javascript:alert(1)">j</a>`,
-		`<blockquote cite="http://example.com/">q</blockquote><q cite="/rel">q</q><del cite="http://bad.example/" datetime="2020-01-02">d</del>`,
-		`<p title="Hello world" id="i1" lang="en" dir="rtl" class="c1 c2" style="color: red; text-align: center">p</p>`,
-		`<my-el title="abc" align="left" width="7">m</my-el><x-el title="ABC" width="1234">x</x-el><my-widget lang="ok-1">w</my-widget>`,
-		`<div>text<noscript>n</noscript><object>o</object><iframe>i</iframe></div>`,
-		`<bdo>b</bdo><bdo dir="rtl">b</bdo><span>s</span><font color="red">f</font>`,
-	} {
-		add(s)
-	}
+	perOpCap = false
 	v := VocabOf(Recipe{Base: "ugc", Ops: all}, fresh)
 	for i := 0; i < 40; i++ {
 		add(string(GenInput(r, v, 6)))
